@@ -237,3 +237,9 @@ Proof.
   change (to_fs (x0, x1, nx, (y0, y1, ny))) with (mk_space (w_of x1) (w_of x0) nx (w_of y1) (w_of y0) ny).
   unfold mk_space; cbn [fst snd]. repeat split; try (apply w_of_pos; lra); apply w_of_decreasing; lra.
 Qed.
+
+(* the constructors keep their arguments: first tuple = first axis, second tuple = second axis *)
+Theorem constructors_keep_order (x0 x1 : R) nx (y0 y1 : R) ny :
+  fs_new x0 x1 nx y0 y1 ny = mk_space x0 x1 nx y0 y1 ny /\ sd_new x0 x1 nx y0 y1 ny = mk_space x0 x1 nx y0 y1 ny /\
+  ws_new x0 x1 nx y0 y1 ny = mk_space x0 x1 nx y0 y1 ny.
+Proof. repeat split. Qed.
